@@ -237,6 +237,7 @@ type hfunc struct {
 	selfRec    bool // calls itself: a Fixpoint on fuel
 	ctor       bool // q := new(V); ...; return q: the fields of the new value struct are returned
 	retRecv    bool // the only result is the receiver itself (return c): not a result of the translation
+	recvNil    bool // the receiver pointer is compared with nil here or in a callee on it: argument <recv>_nil
 	tparams    []string
 }
 
@@ -803,6 +804,7 @@ type hctx struct {
 	cbState  map[*hvar]*hvar // stateful callback parameter -> its state
 	synth    map[ast.Node]*hvar
 	synthLim map[ast.Node]*hvar
+	nilVar    *hvar        // "the receiver pointer is nil" (methods that compare their receiver with nil)
 	selfVar   *hvar        // the function itself (at the smaller fuel) for the recursive calls inside its loops
 	ctorNamed *types.Named // a constructor: the instance of the value struct it makes
 	ctorRest  []ast.Stmt   // ... and its body after q := new(V)
@@ -982,6 +984,10 @@ func (c *hctx) function() {
 		} else {
 			// a value struct: its fields are arguments, the assigned ones are returned
 			fn.recvFields, fn.recvStruct = true, s
+			if _, isPtr := r.Type().(*types.Pointer); isPtr && c.recvObj != nil && c.scanRecvNil() {
+				fn.recvNil = true
+				c.nilVar = c.newVar(c.recvObj.Name()+"_nil", htBool, "param")
+			}
 			used, mut := c.scanFields(s)
 			for i, f := range s.fnames {
 				if !used[f] && !mut[f] {
@@ -1220,6 +1226,9 @@ func hsubst(t *hty, sub map[string]*hty) *hty {
 
 func (c *hctx) sigVars() []*hvar {
 	var vs []*hvar
+	if c.nilVar != nil {
+		vs = append(vs, c.nilVar)
+	}
 	for _, f := range c.fn.fields {
 		vs = append(vs, c.fields[f])
 	}
@@ -1476,6 +1485,10 @@ func (c *hctx) selfLambda() string {
 	var xs []string
 	call := c.fn.name
 	i := 0
+	if c.nilVar != nil {
+		xs = append(xs, "n_")
+		call += " n_"
+	}
 	for _, f := range c.fn.fields {
 		_ = f
 		x := "a" + strconv.Itoa(i)
@@ -1511,6 +1524,9 @@ func (c *hctx) selfLambda() string {
 
 func (c *hctx) selfType() string {
 	var ps []string
+	if c.nilVar != nil {
+		ps = append(ps, "bool")
+	}
 	for _, f := range c.fn.fields {
 		ps = append(ps, arrowArg(c.varType(c.fields[f])))
 	}
@@ -1556,4 +1572,32 @@ func (c *hctx) selfTps() []string {
 	}
 	sort.Strings(ns)
 	return ns
+}
+
+// scanRecvNil: the body compares the receiver pointer with nil, or calls a method on it that does
+func (c *hctx) scanRecvNil() bool {
+	found := false
+	ast.Inspect(c.fn.decl.Body, func(n ast.Node) bool {
+		switch v := n.(type) {
+		case *ast.BinaryExpr:
+			if (v.Op == token.EQL || v.Op == token.NEQ) && (c.isRecvIdent(v.X) && isNilExpr(v.Y) || c.isRecvIdent(v.Y) && isNilExpr(v.X)) {
+				found = true
+			}
+		case *ast.SelectorExpr:
+			if o, ok := c.g.info.Uses[v.Sel].(*types.Func); ok && c.isRecvIdent(v.X) {
+				if cal := c.g.funcs[o.Origin()]; cal != nil && cal != c.fn && cal.recvNil {
+					found = true
+				}
+			}
+		}
+		return true
+	})
+	return found
+}
+
+// recvCheck: an access to a field of a receiver that may be nil: Go's nil-dereference panic
+func (c *hctx) recvCheck(pre *[]hbind) {
+	if c.nilVar != nil {
+		*pre = append(*pre, hbind{pat: "_", m: tRaw{"go_rcv " + c.nilVar.name}})
+	}
 }
